@@ -13,7 +13,7 @@ RULE = ('Hypothesis: front-end (sync TCP/serial/UDP, asyncio TCP/UDP, Twisted TC
         'exactly one frame (independent parser); the sequence must match in order: one response (request tid on TCP, unit, '
         'fc or fc|0x80) per request to a hosted unit (any unit in single mode); none for broadcast-enabled unit 0, absent '
         'units under ignore_missing_slaves and listen-only; absent unit otherwise: nothing or one gateway exception 0x0A/0x0B '
-        'with the request ids. Non-trivial: >=2 requests in one read or a request for which silence is expected; distinct by SHA-1.')
+        'with the request ids. Non-trivial: >=2 requests in one read or a request for which silence is expected; distinct by SHA-1. Datagram cases may have two senders with back-to-back arrival (answers judged per sender); most multi-unit contexts do not host unit 0; sweep of 250 (thorough 600) requests on one long-lived connection of every front-end.')
 ASSUMPTIONS = ['every send()/write()/sendto() call must carry one or more WHOLE response frames (a front-end may coalesce pipelined responses)',
                'Twisted reactor semantics as modelled in vlib/frontends.py; Twisted front-ends have no broadcast option',
                'binary-framing histories containing a delimiter byte inside a frame are excluded and counted (KF-BINARY-FRAMER-DELIMITER-BYTES is judged by C03/C06)']
